@@ -319,7 +319,7 @@ def _decode(repo, rep):
               where=L.where(sub))
 
 
-def _loop(repo, rep):
+def _loop(repo, rep, rule="R06.4"):
     g = repo.func(COMP + "Interpolator.__call__")
     site = g.qualname
     wh = L.where(g)
@@ -335,7 +335,7 @@ def _loop(repo, rep):
         ok = rc is not None and rc.pattern.startswith(r"\$({(?P<expression>"
                                                       r".*)}") and \
             bool(rc.flags & 16) and (("(?P<variable>" in rc.pattern) == var)
-        rep.check(ok, "R06.4", ci.qualname + "." + nm, "a candidate is '$' "
+        rep.check(ok, rule, ci.qualname + "." + nm, "a candidate is '$' "
                   "followed by a braced group matched greedily across lines"
                   + (" or a bare variable name" if var else ""),
                   construct="regex:" + nm,
@@ -347,14 +347,14 @@ def _loop(repo, rep):
               and src(n.value) != "text"]
     ok = len(shrink) == 1 and \
         src(shrink[0].value).replace(" ", "") == "matched[m.start():m.end()-1]"
-    rep.check(ok, "R06.4", site, "a rejected candidate is shrunk by exactly "
+    rep.check(ok, rule, site, "a rejected candidate is shrunk by exactly "
               "one character at its end, keeping its start",
               construct="shrink", where=wh,
               detail=str([src(s_) for s_ in shrink]))
     if shrink:
         h = getattr(shrink[0], "_parent", None)
         rep.check(isinstance(h, ast.ExceptHandler) and h.type is not None and
-                  src(h.type) == "ExpressionError", "R06.4", site,
+                  src(h.type) == "ExpressionError", rule, site,
                   "shrinking happens only when the expression engine "
                   "rejects the candidate (ExpressionError)",
                   construct="shrink-trigger", where=wh)
@@ -363,7 +363,7 @@ def _loop(repo, rep):
         ok = len(body) >= 4 and body[1] == "m = self.regex.search(matched)" \
             and body[2].replace(" ", "").startswith("ifmisNone:raise") and \
             body[3] == "continue"
-        rep.check(ok, "R06.4", site, "the shorter candidate is searched "
+        rep.check(ok, rule, site, "the shorter candidate is searched "
                   "again; when none is left the original error propagates",
                   construct="research-or-raise", where=wh, detail=str(body))
     # nothing but the expression engine may reject a candidate
@@ -371,7 +371,7 @@ def _loop(repo, rep):
     okr = len(raises) == 1 and raises[0].exc is None and isinstance(
         getattr(getattr(raises[0], "_parent", None), "_parent", None),
         ast.ExceptHandler)
-    rep.check(okr, "R06.4", site, "a candidate is rejected only by the "
+    rep.check(okr, rule, site, "a candidate is rejected only by the "
               "expression engine: the loop contains no other raise (no "
               "textual pre-filter on braces or quotes)",
               construct="only-engine-rejects", where=wh,
@@ -381,15 +381,15 @@ def _loop(repo, rep):
                                                        ast.If))
               and (isinstance(n._parent, ast.ExceptHandler) or
                    src(n._parent.test) == "skip") for n in conts)
-    rep.check(okc and len(conts) == 2, "R06.4", site, "the loop continues "
+    rep.check(okc and len(conts) == 2, rule, site, "the loop continues "
               "early only for an escaped '$' and for a shrunk candidate",
               construct="continues", where=wh,
               detail=str([src(getattr(n, "_parent", n))[:40] for n in conts]))
-    rep.check("text = text[len(m.group()):]" in t, "R06.4", site,
+    rep.check("text = text[len(m.group()):]" in t, rule, site,
               "after a successful expression the input advances by the full "
               "length of the match", construct="advance", where=wh)
     rep.check("part = text[:m.start()]" in t and "text = text[m.start():]"
-              in t, "R06.4", site, "the literal run before a candidate is "
+              in t, rule, site, "the literal run before a candidate is "
               "split off without loss", construct="literal-run", where=wh)
     # odd-run test before un-doubling
     stmts = [s_ for s_ in ast.walk(g.node) if isinstance(s_, ast.stmt)]
@@ -398,15 +398,15 @@ def _loop(repo, rep):
     line_un = [s_.lineno for s_ in stmts
                if src(s_) == "part = part.replace('$$', '$')"]
     rep.check(len(line_skip) == 1 and len(line_un) == 1 and
-              line_skip[0] < line_un[0], "R06.4", site, "whether the '$' of "
+              line_skip[0] < line_un[0], rule, site, "whether the '$' of "
               "the candidate is itself escaped (odd run of '$' before it) is "
               "decided before '$$' is un-doubled", construct="odd-run-first",
               where=wh)
     rep.check("while i < length and part[-i - 1] == '$': i += 1" in t,
-              "R06.4", site, "the run of '$' directly before the candidate "
+              rule, site, "the run of '$' directly before the candidate "
               "is counted", construct="run-count", where=wh)
     rep.check("if skip: text = text[1:] continue" in t.replace("\n", " "),
-              "R06.4", site, "an escaped candidate is skipped by one "
+              rule, site, "an escaped candidate is skipped by one "
               "character and scanning continues", construct="skip-escaped",
               where=wh)
     # the literal kept for an empty ${} is the text of the candidate that
@@ -436,25 +436,25 @@ def _loop(repo, rep):
                         continue
                 if src(val) == "m.group()":
                     okl = True
-    rep.check(okl, "R06.4", site, "an empty ${} is kept as the text of the "
+    rep.check(okl, rule, site, "an empty ${} is kept as the text of the "
               "candidate that was finally accepted (m.group() inside the "
               "shrink loop)", construct="empty-literal", where=wh,
               detail=detail)
     # no-match exit un-doubles the tail and ends
     rep.check("if m is None: text = text.replace('$$', '$') "
-              "nodes.append(ast.Constant(text)) break" in t, "R06.4", site,
+              "nodes.append(ast.Constant(text)) break" in t, rule, site,
               "when no candidate is left the tail is un-doubled, emitted and "
               "the loop ends", construct="tail", where=wh)
     rep.check("nodes.append(node)" in t and
-              "node = ast.Constant(part)" in t, "R06.4", site,
+              "node = ast.Constant(part)" in t, rule, site,
               "literal runs are emitted in order", construct="literal-emit",
               where=wh)
     # result: parts concatenated in order, None -> ''
     rep.check("'NODE if NODE is not None else \\'\\''" in t or
-              "NODE if NODE is not None else ''" in t, "R06.4", site,
+              "NODE if NODE is not None else ''" in t, rule, site,
               "a part that evaluates to None contributes nothing",
               construct="none-part", where=wh)
-    rep.check("ast.Constant('%s' * len(nodes))" in t, "R06.4", site,
+    rep.check("ast.Constant('%s' * len(nodes))" in t, rule, site,
               "parts are concatenated in source order",
               construct="concat", where=wh)
 
